@@ -5,8 +5,10 @@ import LoomVerif.Props.C20
 
 open LoomVerif
 
+#print axioms BlockOn.modes_spelled_out
 #print axioms BlockOn.repolls_only_after_wake
 #print axioms BlockOn.spurious_repoll_once
+#print axioms IsCellOp_spelled_out
 #print axioms BlockOn.other_ops_never_repoll
 #print axioms BlockOn.wake_not_lost
 #print axioms BlockOn.wake_makes_wait_nonblocking
@@ -14,8 +16,12 @@ open LoomVerif
 #print axioms BlockOn.returns_output
 #print axioms AwKept_spelled_out
 #print axioms AtomicWaker.lock_protocol
+#print axioms AwIdKept_spelled_out
+#print axioms AtomicWaker.wake_most_recent
 #print axioms Slot.lock_protocol
 #print axioms Waker.refcount_balance
 #print axioms BlockOn.example_slot
 #print axioms BlockOn.example_atomic_waker
 #print axioms BlockOn.example_deadlock
+#print axioms BlockOn.example_poll_once
+#print axioms BlockOn.example_held_clone
